@@ -8,11 +8,21 @@ application sets a status and reason, headers and cookies from hostile alphabets
 (bytes and text, with CR, LF, NUL, ';', non-ASCII), then performs 0-6 writes
 spread over simulated time (directly or through a registered push producer, with
 a small transport buffer so that the producer is paused/resumed) and finishes.
-Header operations are setHeader / addRawHeader / setRawHeaders with a list, often
+Header operations are setHeader / addRawHeader / setRawHeaders with a list (of 0-3
+values: a list of zero values means "no line for this field") / removeHeader, often
 on a field that already has values (any case); some set calls and addCookie calls
 carry text that cannot be encoded (lone surrogates) - first, in the middle or
 last of several values/components - and must be REFUSED without any effect on
-what is sent.  Mis-framing of one response desynchronises the following ones.  In
+what is sent.  In a share of the responses without a declared length the application
+MENTIONS Content-Length without declaring one (zero values, a refused declaration, a
+declaration withdrawn again): nothing of it may be sent and the response is framed as
+if the field had never been touched.  In another share the header block that
+Request.write has assembled reaches the real HTTPChannel.writeHeaders in its other
+documented form - an iterable (list, tuple, generator) of (name, value) two-tuples of
+bytes, one tuple per value, names in any case, with extra hostile pairs of the
+request class's own - as request classes written against the pre-Headers API hand it
+over; an invalid name among the pairs must be refused before anything is sent.
+Mis-framing of one response desynchronises the following ones.  In
 a share of the runs the transport reports the end of the connection synchronously
 from inside loseConnection() (as in-memory transports do).
 
@@ -39,12 +49,12 @@ ID = "C20"
 ENGINE = "net"
 LEVEL = "exploration"
 TECHNIQUE = "deterministic simulation: hostile response generation over a pipelined connection, wire parsed by a reference parser and by h11"
-QUICK_RUNS = 32000
+QUICK_RUNS = 28000
 TWIN_P = 0.08   # this share of the runs drives two independent instances of the scenario one after the other (detsim.runner._run_scenario)
 BATCH = 50
 RUN_WALL_LIMIT_S = 90   # a run takes milliseconds; the wall-clock watchdog only has to survive machine stalls under heavy shared load
 COMPONENTS = {
-    "real": ["twisted.web.http.Request.setResponseCode/setHeader/addCookie/write/finish/registerProducer", "twisted.web.http.HTTPChannel.writeHeaders/"
+    "real": ["twisted.web.http.Request.setResponseCode/setHeader/addCookie/write/finish/registerProducer", "twisted.web.http.HTTPChannel.writeHeaders (Headers form and two-tuple form)/"
              "write/writeSequence/pauseProducing/resumeProducing", "twisted.web.http_headers.Headers/_NameEncoder/_sanitizeLinearWhitespace",
              "twisted.web.http.toChunk"],
     "stub": ["TCP transport with a small send buffer (detsim.net.SimTransport, hwm)", "the client (scripted pipelined requests, reads at tape-chosen times)",
@@ -52,9 +62,13 @@ COMPONENTS = {
 }
 RULE = ("run = 1-4 pipelined requests (the last: HTTP/1.0 or Connection: close in half of the runs; any other: HTTP/1.0 with p=0.06; a Connection header "
         "with close / keep-alive tokens in any case or in a list with p=0.3 on the last and on HTTP/1.0 requests, 0.08 elsewhere); per response a "
-        "tape-chosen status, optional hostile reason, 0-4 header operations (setHeader/addRawHeader/setRawHeaders with 1-3 values, bytes or text names "
+        "tape-chosen status, optional hostile reason, 0-4 header operations (setHeader/addRawHeader/setRawHeaders with 1-3 values or with none/removeHeader, bytes or text names "
         "and values, 35% on a field used before, 12% of the values / 30% of the lists with un-encodable text), 0-2 cookies with hostile attributes "
-        "(15% with one un-encodable component), optional explicit Content-Length (15%: followed by a refused re-declaration), 0-6 writes (direct or via "
+        "(15% with one un-encodable component), optional explicit Content-Length (15%: followed by a refused re-declaration), else with p=0.2 a "
+        "Content-Length that is mentioned but not declared (empty value list / refused add, set, list / set then emptied or removed; name in any case, "
+        "bytes or text), with p=0.15 the header block handed to writeHeaders as list/tuple/generator of two-tuples (one per value, names re-cased, 0-2 "
+        "extra pairs with hostile names and values, 40% on a field used before; a block with an invalid name must be refused whole and is handed over "
+        "again without it), 0-6 writes (direct or via "
         "a push producer) interleaved with request deliveries, client reads and clock advances; 15% of the runs use a transport that reports the "
         "loss from inside loseConnection(); 7 runs out of 8 never put CR/LF into a reason phrase; "
         "non-trivial = at least one response was completed and at least one hostile byte (CR, LF, NUL, ';', non-ASCII) was used in a header, cookie "
@@ -63,7 +77,13 @@ ASSUMPTIONS = ["status codes are three-digit final codes (200-599); reason phras
                "an explicit Content-Length set by the application equals the number of body bytes it then writes",
                "NUL / VT / FF inside a header value or reason: no verdict from h11 (it rejects them); the reference parser accepts them verbatim",
                "the application does not set Content-Length/Transfer-Encoding/Connection/Set-Cookie through the hostile header generator "
-               "(a REFUSED re-declaration of Content-Length is made, because it must change nothing)",
+               "(a REFUSED re-declaration of Content-Length is made, because it must change nothing; Content-Length is also MENTIONED without being "
+               "declared - zero values, refused, withdrawn - because 'exactly the headers set' then means no Content-Length and the framing must follow)",
+               "a field set to a list of zero values, or removed, has no line on the wire; removeHeader is not a set call: whether it raises under an invalid "
+               "name is not judged, and should it raise under a valid name that field gets no verdict",
+               "HTTPChannel.writeHeaders is part of the emitting path named by the property, and its docstring documents two forms of the header argument; the "
+               "two-tuple form (bytes names and values, the documented type) is held to the same clauses: exactly the pairs given - one line per pair, the order "
+               "of a field's values kept - line breaks replaced, an invalid name refused with nothing sent.  The order of DIFFERENT fields is not judged",
                "text that no encoding can carry (lone surrogates) is expected to be refused; should a set call accept it, that field gets no verdict",
                "a Connection: close / keep-alive header added to the response by the server is not a header 'set' by the application and is allowed",
                "how many requests are served after one that allows the server to close is not judged (persistence, not framing)"]
@@ -128,6 +148,10 @@ UNENCODABLE = ["\udce9", "\ud800", "a\udfffb", "caf\udce9"]
 CONN_VALUES = [b"keep-alive", b"close", b"Keep-Alive", b"CLOSE", b"KEEP-ALIVE", b"Close", b"keep-alive, close", b"close, TE", b"TE, keep-alive"]
 
 
+# ways of mentioning Content-Length without declaring one
+CL_VOID_KINDS = ["empty-list", "refused-add", "set-then-empty", "refused-set", "set-then-remove", "refused-list"]
+
+
 def gen_unencodable(sim):
     return gen_text(sim, sim.draw_int(0, 3, "ulen")) + sim.draw_choice(UNENCODABLE, "unenc") + gen_text(sim, sim.draw_int(0, 2, "ulen2"))
 
@@ -184,13 +208,15 @@ def gen_plan(sim, idx, avoid_reason_breaks):
         p.reason = r
     p.header_ops = []
     for _ in range(sim.draw_int(0, 4, "nops")):
-        op = sim.draw_choice(["set", "add", "set", "add", "setmulti"], "hop")
+        op = sim.draw_choice(["set", "add", "set", "add", "setmulti", "setempty", "remove"], "hop")
         if p.header_ops and sim.draw_bool(0.35, "same-name"):
             # the same field again (any case): replaces / extends / must survive a refused call
             name = vary_case(sim, sim.draw_choice([o[1] for o in p.header_ops], "which-name"))
         else:
             name = gen_name(sim)
-        if op == "setmulti":
+        if op in ("setempty", "remove"):
+            value = []          # setRawHeaders(name, []) / removeHeader(name): afterwards the field has no value, so no line is sent for it
+        elif op == "setmulti":
             value = [gen_hostile_value(sim) for _ in range(sim.draw_int(1, 3, "nvalues"))]
             if sim.draw_bool(0.3, "bad-in-list"):
                 value[sim.draw_int(0, len(value) - 1, "bad-pos")] = gen_unencodable(sim)
@@ -222,6 +248,31 @@ def gen_plan(sim, idx, avoid_reason_breaks):
     p.cl_bad_name = sim.draw_choice([b"Content-Length", "content-length", b"CONTENT-LENGTH"], "cl-name") if p.cl_redeclared_badly else None
     p.mode = sim.draw_choice(["direct", "direct", "producer"], "wmode")
     p.first_sync = sim.draw_int(0, 2, "sync")     # 0: everything at process() time; 1: first write at process(); 2: nothing at process()
+    # the application touches Content-Length but ends up NOT declaring one (a list of zero values, a refused declaration, a
+    # declaration that is withdrawn again): the response must be framed exactly as if the field had never been mentioned
+    p.cl_void = None
+    if not p.explicit_cl and sim.draw_bool(0.2, "cl-void"):
+        p.cl_void = sim.draw_choice(CL_VOID_KINDS, "cl-void-kind")
+        p.cl_void_name = sim.draw_choice([b"Content-Length", "content-length", b"CONTENT-LENGTH", "Content-Length", b"content-length"], "cl-void-name")
+    # the header block is handed to HTTPChannel.writeHeaders in its other documented form: an iterable of (name, value) two-tuples of
+    # bytes, one tuple per value (what Request.write did before it passed a Headers object; request classes written against that API
+    # still do), names in any case, plus 0-2 pairs of its own with hostile names / values
+    p.pairs_form = None
+    p.late_pairs = []
+    if sim.draw_bool(0.15, "pairs-form"):
+        p.pairs_form = sim.draw_choice(["list", "generator", "tuple"], "pairs-kind")
+        for _ in range(sim.draw_weighted([(0, 3), (1, 2), (2, 1)], "nlate")):
+            if p.header_ops and sim.draw_bool(0.4, "late-same-name"):
+                n = sim.draw_choice([o[1] for o in p.header_ops], "late-which")
+                n = vary_case(sim, n if isinstance(n, bytes) else n.encode("latin-1", "replace"))
+            else:
+                k = sim.draw_int(0, 2, "late-nkind")
+                n = sim.draw_choice(GOOD_NAMES, "gname")
+                if k == 1:
+                    n = sim.draw_bytes(sim.draw_int(0, 5, "nlen"), NAME_ALPHABET)
+                elif k == 2:
+                    n += sim.draw_choice([b":", b" ", b"\r\n", b"\n", b": x\r\nY"], "ntail")
+            p.late_pairs.append((n, _b(gen_hostile_value(sim))))
     return p
 
 
@@ -237,6 +288,65 @@ def expected_cookie(c):
     if c["sameSite"]:
         out += b"; SameSite=" + _b(c["sameSite"]).lower()
     return out
+
+
+class PairsCapableRequest(H.RecRequest):
+    """The real Request; when the application sets `pairs`, the header block that Request.write has put together (framing decision,
+    cookies and all) reaches the real HTTPChannel.writeHeaders not as a Headers object but in the other documented form: an iterable
+    of (name, value) two-tuples of bytes - one tuple per value, so a field with several values (several cookies) repeats its name -
+    with names in any case and with the plan's own extra pairs (hostile names / values) among them."""
+
+    pairs = None
+
+    def write(self, data):
+        if self.pairs is None or self.startedWriting or self.finished or self._disconnected:
+            return H.RecRequest.write(self, data)
+        sim, plan, transport, note_hostile = self.pairs
+        channel = self.channel
+        real = channel.writeHeaders
+
+        def form(pairs):
+            if plan.pairs_form == "generator":
+                return ((n, v) for n, v in pairs)
+            return list(pairs) if plan.pairs_form == "list" else tuple(pairs)
+
+        def hand_over(version, code, reason, headers):
+            pairs = [(vary_case(sim, n), v) for n, vs in headers.getAllRawHeaders() for v in vs]
+            ranks = []      # position of each extra pair among the values of its field (the order of a field's values is significant)
+            for n, v in plan.late_pairs:
+                pos = sim.draw_int(0, len(pairs), "late-pos")
+                ranks.append(sum(1 for m, _v in pairs[:pos] if m.lower() == n.lower()))
+                pairs.insert(pos, (n, v))
+            names = [n.lower() for n, _v in pairs]
+            if len(set(names)) < len(names):
+                sim.probe("pairs_form_with_repeated_name")
+            bad = [n for n, _v in plan.late_pairs if not name_valid(n)]
+            before = len(transport.written)
+            try:
+                real(version, code, reason, form(pairs))
+                raised = None
+            except Exception as e:
+                raised = type(e).__name__
+            sim.event("pairs", plan.idx, plan.pairs_form, len(pairs), "refused" if raised else "accepted")
+            sim.fault("header_block_handed_over_as_pairs")
+            sim.check("invalid-name-accepted", not bad or raised is not None, "pairs", lambda: "names %r were accepted by writeHeaders(%s)" % (bad, plan.pairs_form))
+            sim.check("valid-name-refused", bad or raised is None, "pairs", lambda: "writeHeaders(%s of %r) raised %s" % (plan.pairs_form, pairs, raised))
+            if raised is not None:
+                # refused as a whole: nothing of the block may have been sent; the application leaves the offending pairs out and hands it over again
+                sim.probe("pairs_form_refused_invalid_name")
+                sim.check("refused-block-emitted", len(transport.written) == before, "pairs", lambda: "sent %r" % (bytes(transport.written[before:]),))
+                pairs = [(n, v) for n, v in pairs if name_valid(n)]
+                real(version, code, reason, form(pairs))
+            for (n, v), rank in zip(plan.late_pairs, ranks):
+                if name_valid(n):
+                    plan.expected.setdefault(n.lower(), []).insert(rank, http1.norm_value(v))
+                    note_hostile(v)
+
+        channel.writeHeaders = hand_over
+        try:
+            return H.RecRequest.write(self, data)
+        finally:
+            del channel.writeHeaders
 
 
 def run(sim):
@@ -334,19 +444,34 @@ def run(sim):
             note_hostile(plan.reason)
         for op, name, value in plan.header_ops:
             valid = name_valid(name)
-            values = value if op == "setmulti" else [value]
+            values = value if op in ("setmulti", "setempty", "remove") else [value]
             good_value = all(encodable(v) for v in values)
             try:
                 if op == "set":
                     req.setHeader(name, value)
                 elif op == "add":
                     req.responseHeaders.addRawHeader(name, value)
+                elif op == "remove":
+                    req.responseHeaders.removeHeader(name)
                 else:
-                    req.responseHeaders.setRawHeaders(name, value)
+                    req.responseHeaders.setRawHeaders(name, list(value))
                 raised = None
             except Exception as e:
                 raised = type(e).__name__
             sim.event("header", idx, op, repr(name), "refused" if raised else "accepted")
+            if op == "remove":
+                # not a set call: the statement says nothing about whether removing under an invalid name raises.  Under a valid
+                # name the field is gone afterwards (earlier values must not be sent); should the call raise, no verdict on the field
+                if valid:
+                    key = (name if isinstance(name, bytes) else name.encode("latin-1")).lower()
+                    if raised is None:
+                        if plan.expected.pop(key, None):
+                            sim.probe("header_removed_after_values_were_set")
+                    else:
+                        plan.unknown.add(key)
+                continue
+            if op == "setempty" and valid and raised is None and plan.expected.get((name if isinstance(name, bytes) else name.encode("latin-1")).lower()):
+                sim.probe("header_set_to_zero_values_after_values_were_set")
             sim.check("invalid-name-accepted", valid or raised is not None, op, lambda: "name %r was accepted" % (name,))
             sim.check("valid-name-refused", not (valid and good_value) or raised is None, op, lambda: "name %r value %r raised %s" % (name, value, raised))
             if valid and not good_value:
@@ -366,7 +491,7 @@ def run(sim):
                 # an application that catches the refusal and retries (or a second request reflecting the same
                 # name) must be refused again: refusal must not depend on the name having been seen before
                 try:
-                    req.responseHeaders.addRawHeader(name, values[0] if encodable(values[0]) else b"v")
+                    req.responseHeaders.addRawHeader(name, values[0] if values and encodable(values[0]) else b"v")
                     again = None
                 except Exception as e:
                     again = type(e).__name__
@@ -399,6 +524,33 @@ def run(sim):
                 if isinstance(x, (bytes, str)):
                     note_hostile(_b(x))
         total = sum(len(w) for w in plan.writes)
+        if plan.cl_void is not None:
+            # Content-Length is mentioned but, in the end, not declared: nothing of it may be sent and the framing is that of a
+            # response without a declared length
+            kind, clname, bad = plan.cl_void, plan.cl_void_name, "%d" % total + "\udce9"
+            if kind.startswith("set-then-"):
+                req.setHeader(b"Content-Length", b"%d" % total)
+            try:
+                if kind in ("empty-list", "set-then-empty"):
+                    req.responseHeaders.setRawHeaders(clname, [])
+                elif kind == "set-then-remove":
+                    req.responseHeaders.removeHeader(clname)
+                elif kind == "refused-add":
+                    req.responseHeaders.addRawHeader(clname, bad)
+                elif kind == "refused-set":
+                    req.setHeader(clname, bad)
+                else:
+                    req.responseHeaders.setRawHeaders(clname, ["%d" % total, bad])
+                if kind.startswith("refused-"):
+                    plan.unknown.add(b"content-length")     # accepted: no verdict on the field (see ASSUMPTIONS)
+                sim.fault("content_length_mentioned_not_declared")
+            except Exception:
+                if kind.startswith("refused-"):
+                    sim.fault("content_length_mentioned_not_declared")
+                    sim.fault("content_length_declaration_refused_none_in_force")
+                else:
+                    plan.unknown.add(b"content-length")     # withdrawing a declaration raised: the statement does not cover that; no verdict
+            sim.event("cl-void", idx, kind)
         if plan.explicit_cl:
             req.setHeader(b"Content-Length", b"%d" % total)
             plan.expected[b"content-length"] = [b"%d" % total]
@@ -413,6 +565,8 @@ def run(sim):
         if plan.mode == "producer":
             prod = H.BodyProducer(sim, req, rest, None)
             req.registerProducer(prod, True)
+        if plan.pairs_form is not None:
+            req.pairs = (sim, plan, srv.t, note_hostile)
         active.append([plan, req, rest, prod])
         if plan.first_sync == 0:
             while active and active[0][0] is plan and (prod is None or prod.ready()):
@@ -421,6 +575,7 @@ def run(sim):
             app_step()
 
     srv = H.Server(sim, app, timeout=3600, hwm=hwm, sync_loss=sync_loss)
+    srv.proto.requestFactory = PairsCapableRequest
     pieces = net.cut(sim, stream, boundaries=bounds)
     queue = list(pieces)
     ticks = 0
@@ -506,7 +661,7 @@ def run(sim):
             return ("framing", "unframed:" + cls, "response %d" % i), r
         if conn is not None and [v.lower() for v in conn] not in ([b"close"], [b"keep-alive"]):
             return ("headers", "connection", "response %d: Connection %r" % (i, conn)), r
-        want = dict((n, [canon(n, v) for v in vs]) for n, vs in plan.expected.items())
+        want = dict((n, [canon(n, v) for v in vs]) for n, vs in plan.expected.items() if vs)      # a field with zero values has no line
         for n in plan.unknown:
             got.pop(n, None)
             want.pop(n, None)
@@ -591,5 +746,12 @@ MUTANTS = [
     'CAUGHT (round 4) http.py checkPersistence: HTTP/1.0 + `Connection: keep-alive` made persistent -> framing:close-delimited-not-last, framing:close-delimited-connection-left-open:http10',
     'CAUGHT (round 4) http_headers.py Headers.setRawHeaders: entry reset first, values appended one by one (a refused call wipes earlier values / emits the leading good values) -> headers:missing, headers:extra, framing:transfer-encoding:explicit-cl',
     'CAUGHT (round 4) http.py Request.addCookie: cookie appended before the sameSite component is validated (a refused addCookie still emits the cookie) -> headers:cookie',
+    'CAUGHT (round 5) http.py Request.write: `getRawHeaders(b"Content-Length") is None` -> `not hasHeader(b"Content-Length")` (an entry with zero values switches chunking off) -> framing:close-delimited-not-last, framing:close-delimited-connection-left-open:chunked',
+    'CAUGHT (round 5) http_headers.py Headers.getRawHeaders: `if not values` -> `if encodedName not in self._rawHeaders` (an empty entry is returned as []) -> same two framing signatures',
+    'CAUGHT (round 5) http.py HTTPChannel.writeHeaders: `for value in values` -> `for value in values or [b""]` (a field with zero values gets an empty line) -> headers:extra, unparseable:http10',
+    'CAUGHT (round 5) http_headers.py Headers.removeHeader: entry not popped -> headers:extra, headers:value',
+    'CAUGHT (round 5) http.py HTTPChannel.writeHeaders two-tuple branch: `Headers({name: [value] for ...})` (repeated names collapse) -> headers:value, headers:cookie',
+    'CAUGHT (round 5) http.py HTTPChannel.writeHeaders two-tuple branch: `addRawHeader(name, value)` -> `setRawHeaders(name, [value])` -> headers:value, headers:cookie',
+    'CAUGHT (round 5) http.py HTTPChannel.writeHeaders two-tuple branch: pairs stored without name check / sanitising -> invalid-name-accepted:pairs, unparseable:*',
     'FIX-CHECK http.py HTTPChannel.writeHeaders: `reason` -> `_sanitizeLinearWhitespace(reason)`: reason-line-break disappears, 0 violations in 6000 runs (1782 responses with CR/LF in the reason)',
 ]
